@@ -90,6 +90,12 @@ Section DklRing.
   Qed.
 End DklRing.
 
+(* ------------------------------------------------------------------ dkl_wishart *)
+Lemma dkl_wishart_code_is_textbook a1 a2 dim LD1 LD2 L2 lgc G1 G2 PS1 PS2 TR :
+  src_dkl_wishart a1 a2 dim LD1 LD2 L2 lgc G1 G2 PS1 PS2 TR
+  == dkl_wishart_textbook a1 a2 dim LD1 LD2 lgc G1 G2 PS1 TR.
+Proof. unfold src_dkl_wishart, dkl_wishart_textbook. field. Qed.
+
 From Coq Require Import Reals Lra.
 Open Scope R_scope.
 (* dimension one, covariance form: with p_i = 1/s_i^2 the code's expression
